@@ -152,6 +152,41 @@ class PathCtx:
     return self.fork(b)
 
   # ---------------------------------------------------------------- obligations
+  def oblige_abstract(self, name, claim, ops, kind="contract", detail=""):
+    """Checks pc => claim after replacing every application of the given operators (z3 decl kinds) by a fresh
+    constant of the same sort — a sound generalisation (if the abstracted VC is valid so is the original); used
+    when only the ORDER facts about expensive float terms matter."""
+    claim = _z(claim)
+    t0 = time.time()
+    terms = {}
+
+    def visit(e, seen):
+      if e.get_id() in seen:
+        return
+      seen.add(e.get_id())
+      if z3.is_app(e):
+        if e.decl().kind() in ops:
+          terms[e.get_id()] = e
+          return
+        for ch in e.children():
+          visit(ch, seen)
+
+    seen = set()
+    for p in self.pc + [claim]:
+      visit(p, seen)
+    subs = [(e, z3.Const(self.fresh_name("abs"), e.sort())) for e in terms.values()]
+    s = z3.Solver()
+    s.set("timeout", OBL_TIMEOUT_MS)
+    for p in self.pc:
+      s.add(z3.substitute(p, *subs) if subs else p)
+    s.add(z3.Not(z3.substitute(claim, *subs) if subs else claim))
+    r = s.check()
+    if r == z3.unsat:
+      self.obligations.append(Obligation(name, "unsat", time.time() - t0, "z3(abstracted float operations)", kind=kind, detail=detail))
+      self.assume(claim)
+      return "unsat"
+    return self.oblige(name, claim, kind=kind, detail=detail)
+
   def oblige(self, name, claim, kind="contract", detail="", assume_after=True):
     """Checks pc => claim.  Records verdict.  Returns status."""
     base = name
